@@ -23,7 +23,7 @@ class C04(ModelCheck):
     def gen_program(self, rng, tier):
         g = Gen(rng, weights={'group_by': 4, 'roll': 2, 'split': 2, 'time_split': 0, 'progress': 0, 'tee_map': 1}, max_nest=2,
                 small=(tier == 'quick'))
-        key = rng.choice(['rk', 'rk_big', 'rk_tup', 'rv_mod3', 'rv_div2big', 'rv_tup', 'rn_div3', 'rv_flt', 'rv_mixed', 'rv_zero', 'rv_nest', 'rv_np', 'rv_nanfresh_none', 'rv_hashcol', 'rr3'])
+        key = rng.choice(['rk', 'rk_big', 'rk_tup', 'rv_mod3', 'rv_div2big', 'rv_tup', 'rn_div3', 'rv_flt', 'rv_mixed', 'rv_zero', 'rv_nest', 'rv_np', 'rv_nanfresh_none', 'rv_hashcol', 'rv_strhash', 'rv_fset', 'rv_dt64ns', 'rr3'])
         inner = g.pipeline(St('rec'), Flags(deny=('time_split', 'progress')), rng.choice([0, 1, 1]), rng.choice([1, 2, 2, 3]))
         node = {'op': 'group_by', 'key': key, 'inner': inner}
         shape = rng.random()
